@@ -232,6 +232,23 @@ func runCase(c *kit.Case) {
 		return true
 	}
 
+	// settlePaused is settle() while the consumer is paused. The statement does not promise that Add
+	// returns while the receiver is behind, so a registration that does not come back within the
+	// watchdog is not judged: the consumer is resumed and the probe is awaited.
+	settlePaused := func() bool {
+		done := make(chan bool, 1)
+		go func() { done <- settle() }()
+		select {
+		case ok := <-done:
+			return ok
+		case <-time.After(3 * time.Second):
+			r.Count("registrations_that_waited_for_the_paused_consumer", 1)
+			unpause()
+
+			return <-done
+		}
+	}
+
 	// expected number of reports so far according to the model
 	expected := 0
 	checked := 0 // reports[:checked] already validated
@@ -486,7 +503,7 @@ func runCase(c *kit.Case) {
 			trace = append(trace, opRec{Op: "advance", Adv: adv.String(), Now: clock.Now().Sub(t0).String(), Status: map[bool]string{true: "consumer-paused"}[slow]})
 			if slow {
 				// let the deadliner work through everything that became due while nobody reads, then resume
-				ok := settle()
+				ok := settlePaused()
 				if len(dl.C()) == cap(dl.C()) {
 					r.Count("output_buffer_full_while_consumer_paused", 1)
 				}
@@ -526,7 +543,7 @@ func runCase(c *kit.Case) {
 				clock.Advance(time.Duration(maxStep+2) * grid)
 				trace = append(trace, opRec{Op: "advance", Adv: "to-end", Now: clock.Now().Sub(t0).String(), Status: map[bool]string{true: "consumer-paused"}[slow]})
 				if slow {
-					settle()
+					settlePaused()
 					if len(dl.C()) == cap(dl.C()) {
 						r.Count("output_buffer_full_while_consumer_paused", 1)
 					}
